@@ -75,6 +75,11 @@ def run_mode(text, mode):
             prob, facts = mpe.mpe_semiring(lf)
         return dict(kind="ok", prob=prob, facts=None if facts is None else [str(f) for f in facts])
     except Exception as e:  # noqa
+        import subprocess
+        if isinstance(e, subprocess.CalledProcessError) and e.returncode is not None and e.returncode > 0:
+            # the solver gave up with an ordinary exit status (maxsatz prints 'ERROR: Out of memory.' when the WCNF exceeds its
+            # static tables): a capacity limit of the external tool, no verdict; death by signal (negative status) stays a violation
+            return dict(kind="solver_gave_up", rc=e.returncode)
         return sut.outcome_of_exception(e)
 
 
@@ -95,6 +100,9 @@ def run_case(case):
     text = G.to_text(prog)
     mode = case["mode"]
     o = run_mode(text, mode)
+    if o["kind"] == "solver_gave_up":
+        COUNTERS["solver_gave_up"] += 1
+        return skip("external solver exit status %d (capacity)" % o["rc"])
     feats = G.feat_list(F) + [mode, "ref_" + st]
     COUNTERS["mode_%s" % mode] += 1
     COUNTERS["ref_%s" % st] += 1
